@@ -117,10 +117,13 @@ type rCase struct {
 	stageEnv       []string // file mode: environment each planned stage must provide ("K=V;K=V", keys in envKeys order)
 	// the run goes through the real command line (F1.ExecuteWithArgs: flag parsing, run_cmd, signal context) instead
 	// of run.NewRun: cli = the trigger sub-command followed by its own flags; the common flags are derived from cfg
-	cli []string
+	cli      []string
+	primer   []string // full argument list of an earlier run on the same F1 instance (not recorded)
+	combined bool     // the scenario is the middle component of f1.CombineScenarios(quiet, scenario, quiet)
 }
 
 type rRec struct {
+	priming         atomic.Bool // an earlier run on the same F1 instance is in progress: nothing of it is recorded
 	mu              sync.Mutex
 	t0              time.Time
 	ev              []rEv
@@ -151,6 +154,9 @@ type rRec struct {
 func (r *rRec) us() int64 { return time.Since(r.t0).Microseconds() }
 
 func (r *rRec) add(e rEv) {
+	if r.priming.Load() {
+		return // an earlier run on the same F1 instance: not the run under observation
+	}
 	r.mu.Lock()
 	r.ev = append(r.ev, e)
 	r.mu.Unlock()
@@ -171,6 +177,9 @@ func curGoid() int64 {
 
 // hook is the free-running hook function: it only logs.
 func (r *rRec) hook(point string, who any, n int64) {
+	if r.priming.Load() {
+		return
+	}
 	switch point {
 	case "rr.tick":
 		if r.wedge {
@@ -293,6 +302,9 @@ func (h *rHandler) Enabled(context.Context, slog.Level) bool { return true }
 func (h *rHandler) WithAttrs(a []slog.Attr) slog.Handler     { return h }
 func (h *rHandler) WithGroup(string) slog.Handler            { return h }
 func (h *rHandler) Handle(_ context.Context, rc slog.Record) error {
+	if h.rec.priming.Load() {
+		return nil
+	}
 	switch rc.Message {
 	case "progress", "Load Test Passed", "Load Test Failed":
 	default:
@@ -444,7 +456,7 @@ func runOne(c *ctx, rc rCase, m *metrics.Metrics) rTrace {
 	}
 	fn := func(t *f1testing.T) f1testing.RunFn {
 		t.Cleanup(func() { rec.add(rEv{K: "setupcleanup", A: live.Load(), C: rec.us()}) })
-		if rc.cfg.SetupFail {
+		if rc.cfg.SetupFail && !rec.priming.Load() {
 			if rc.cfg.SetupUs > 0 {
 				time.Sleep(time.Duration(rc.cfg.SetupUs) * time.Microsecond) // a setup that fails after a while
 			}
@@ -452,12 +464,15 @@ func runOne(c *ctx, rc rCase, m *metrics.Metrics) rTrace {
 			failWith(t, rc.cfg.SetupMode)
 			return func(*f1testing.T) { rec.add(rEv{K: "start", A: -1, B: -1, C: rec.us()}) } // must never run
 		}
-		if rc.cfg.SetupUs > 0 {
+		if rc.cfg.SetupUs > 0 && !rec.priming.Load() {
 			time.Sleep(time.Duration(rc.cfg.SetupUs) * time.Microsecond)
 		}
 		rec.add(rEv{K: "setup", A: 1, C: rec.us()})
 		if rc.cfg.Light {
 			return func(t *f1testing.T) {
+				if rec.priming.Load() {
+					return
+				}
 				id, _ := strconv.ParseInt(t.Iteration, 10, 64)
 				k := lightN.Add(1)
 				if int(k) <= len(lightIDs) {
@@ -477,6 +492,9 @@ func runOne(c *ctx, rc rCase, m *metrics.Metrics) rTrace {
 			}
 		}
 		return func(t *f1testing.T) {
+			if rec.priming.Load() {
+				return
+			}
 			id, _ := strconv.ParseInt(t.Iteration, 10, 64)
 			hv, ok := handles.Load(t)
 			if !ok {
@@ -582,6 +600,9 @@ func runOne(c *ctx, rc rCase, m *metrics.Metrics) rTrace {
 				panic("planned panic")
 			}
 			if out == 1 {
+				if id%2 == 0 && !rc.failEarly {
+					t.FailNow() // the stopping way of failing: the iteration is failed all the same
+				}
 				t.Fail()
 			}
 		}
@@ -590,6 +611,28 @@ func runOne(c *ctx, rc rCase, m *metrics.Metrics) rTrace {
 	out := ui.NewOutput(logger, ui.NewDiscardPrinter(), false, false)
 	sr := simpleRun{Scenario: rc.scnName, Concurrency: rc.cfg.Conc, MaxIter: uint64(rc.cfg.MaxIter), MaxDuration: time.Duration(rc.cfg.MaxDurUs) * time.Microsecond,
 		WaitTimeout: time.Duration(rc.cfg.WaitUs) * time.Microsecond, Metrics: m, Output: out, Opts: rc.opts}
+	var inst *f1.F1
+	if rc.cli != nil {
+		name := rc.scnName
+		if name == "" {
+			name = "scn"
+		}
+		scn := f1testing.ScenarioFn(fn)
+		if rc.combined {
+			// the recording scenario as the middle component of a combined one
+			quiet := func(*f1testing.T) f1testing.RunFn { return func(*f1testing.T) {} }
+			scn = f1.CombineScenarios(quiet, fn, quiet)
+		}
+		inst = f1.New().WithLogger(logger).Add(name, scn)
+		if rc.primer != nil {
+			// an EARLIER run on the same F1 instance, same sub-command, other flags (all tolerances set): the run under
+			// observation must behave as if it were the first
+			rec.priming.Store(true)
+			_ = inst.ExecuteWithArgs(rc.primer)
+			rec.priming.Store(false)
+			rec.t0 = time.Now()
+		}
+	}
 	ctxRun, cancel := context.WithCancel(context.Background())
 	defer cancel()
 	rec.cancelFn = cancel
@@ -633,7 +676,7 @@ func runOne(c *ctx, rc rCase, m *metrics.Metrics) rTrace {
 					args = append(args, "--max-iterations", strconv.FormatInt(rc.cfg.MaxIter, 10))
 				}
 			}
-			cliErr = f1.New().WithLogger(logger).Add(name, fn).ExecuteWithArgs(args)
+			cliErr = inst.ExecuteWithArgs(args)
 			doneCh <- doRes{nil, metrics.Instance(), nil}
 			return
 		}
@@ -1062,10 +1105,37 @@ func buildCases(c *ctx) []rCase {
 	// --- the same kinds of run THROUGH THE REAL COMMAND LINE (F1.ExecuteWithArgs: flag parsing, run_cmd's option
 	// plumbing, the signal context): what a user of the f1 binary gets; the completion timeout is the CLI's 10 s
 	{
+		tolerant := []string{"--max-duration", "60ms", "--max-failures", "100000", "--max-failures-rate", "100", "--ignore-dropped"}
+		primers := map[string][]string{
+			"constant": append([]string{"run", "constant", "scn", "-r", "7/10ms", "--distribution", "regular", "--jitter", "10", "-c", "7", "--max-iterations", "9"}, tolerant...),
+			"users":    append([]string{"run", "users", "scn", "-c", "2", "--max-iterations", "5"}, tolerant...),
+			"staged": append([]string{"run", "staged", "scn", "--stages", "0s:30,40ms:30", "--iterationFrequency", "10ms", "--distribution", "regular",
+				"--jitter", "10", "-c", "7"}, tolerant...),
+		}
+		nCLI := 0
 		viaCLI := func(rc rCase, sub string, flags ...string) rCase {
 			rc.cfg.Name = "cli-" + rc.cfg.Name
 			rc.cfg.WaitUs = 10_000 * ms
 			rc.cli = append([]string{sub}, flags...)
+			// two of three are not the first run on their F1 instance, every other one runs as the middle component of a
+			// combined scenario
+			nCLI++
+			if (nCLI+int(c.seed))%3 != 0 || rc.cfg.CancelUs > 0 {
+				rc.primer = primers[sub]
+				if rc.cfg.CancelUs > 0 {
+					// (a limit left over from the earlier run would end this one before its Ctrl-C)
+					var p []string
+					for k := 0; k < len(rc.primer); k++ {
+						if rc.primer[k] == "--max-iterations" {
+							k++
+							continue
+						}
+						p = append(p, rc.primer[k])
+					}
+					rc.primer = p
+				}
+			}
+			rc.combined = (nCLI+int(c.seed))%2 == 0
 			return rc
 		}
 		usersCase := func(name string, conc int, maxIter, durUs int64) rCase {
